@@ -146,14 +146,11 @@ def check(db, rep):
         r5.violation('SortSubset', '%s:%d' % (ss.file, ss.line), 'SortSubset does not walk the ordered list from begin() to end() keeping exactly the members of the subset')
 
     # shared support rules: graph closure used for the basis (C14) and alias renumbering refresh (C07)
-    r6 = rep.rule('r6', 'SUPPORT-SHARED: ExpandInputs is an exact backward closure (C14 direction/closure rules); renumbering aliases refreshes graph and analysis (C07 r1, Schema)', 10)
+    r6 = rep.rule('r6', 'SUPPORT-SHARED: ExpandInputs/ExpandOutputs/InputsFor/Sort of the interpreted graph are exact on bounded graphs (C14 r8); renumbering aliases refreshes graph and analysis (C07 r1, Schema)', 10)
     from rules import C14, C07
     from engine.modset import ModSets
     methods = {f.name.split('::')[-1]: f for f in db.methods_of(G)}
-    C14._direction(db, r6, methods)
-    for name in ('ExpandInputs', 'ExpandOutputs'):
-        if name in methods:
-            C14._closure(r6, methods[name], name)
+    C14.graph_evaluated(db, rep, r6, instances=('closures', 'inputs', 'sort'), light=True, note_prefix='r6_graph')
     C07.refresh_rule(db, rep, r6, ModSets(db), ((C07.SCHEMA, C07._classify_schema, C07._families_schema),))
     # list order of kinds (shared with C09 r4): the extraction keeps relative order through SortSubset only if the priority of kinds used when
     # moving constituents agrees with the one used when inserting them
